@@ -69,6 +69,36 @@ func Discharge(results []*FuncResult, workDir string, secs int, par int, seed in
 		}()
 	}
 	wg.Wait()
+	// Second chance: an obligation left undecided while the machine was busy
+	// with many queries at once is tried again with little else running. (A
+	// proof must not depend on how loaded the machine was.)
+	var again []job
+	for _, j := range jobs {
+		if !j.o.MustFail && (j.o.Status == "timeout" || j.o.Status == "unknown") {
+			again = append(again, j)
+		}
+	}
+	if len(again) > 0 && len(again) <= 12 {
+		sem2 := make(chan struct{}, 2)
+		for i, j := range again {
+			j := j
+			i := i
+			wg.Add(1)
+			sem2 <- struct{}{}
+			go func() {
+				defer wg.Done()
+				defer func() { <-sem2 }()
+				first := j.o.Output
+				solveOne(j.fr.VC, j.o, workDir, 100000+i, secs, seed+1)
+				if j.o.Status != "discharged" && j.o.Status != "failed" {
+					j.o.Output = first + " || second attempt: " + j.o.Output
+				} else {
+					j.o.Solver = "retry/" + j.o.Solver
+				}
+			}()
+		}
+		wg.Wait()
+	}
 }
 
 func solveOne(vc *VC, o *Obligation, workDir string, idx int, secs int, seed int) {
